@@ -15,6 +15,8 @@ from props.engine_common import engine_rig
 TEMPLATES = {
     "block_sim": "Mark: A\nBlock: B1\n    Simulate: In1 = 7\n    Mark: B\n    Wait: 0.3s\n    Simulate off: In1\n    End block\nMark: C\n",
     "outputs": "SetOut1: 5\nMark: A\nWatch: In1 > 0\n    Mark: W\nRun counter: 2\nWait: 0.4s\nBase: s\n",
+    # simulate a tag with the value it already has, switch simulation off, let the real value change, simulate the same value again
+    "resimulate": "Simulate: In1 = 7\nSimulate off: In1\nMark: A\nMark: B\nSimulate: In1 = 7\nMark: C\nSimulate off: In1\nSimulate: In1 = 9\nMark: D\n",
 }
 N = 18
 
@@ -36,14 +38,15 @@ def harness(sym):
         since = 0
         gap = sym.int("gap0", 1, 3)
         r = 0
-        e.uod.hwl.mem["In1"] = 0
+        in1_before, in1_after = (7, 9) if t == "resimulate" else (0, 1)     # the real (hardware) value of In1 changes at tick 8
+        e.uod.hwl.mem["In1"] = in1_before
         for i in range(N):
             if pause_at is not None and i == pause_at:
                 rig.user("Pause")
             if pause_at is not None and i == pause_at + 3:
                 rig.user("Unpause")
             if i == 8:
-                e.uod.hwl.mem["In1"] = 1
+                e.uod.hwl.mem["In1"] = in1_after
             rig.tick(0.1)
             sym.check(not rig.tick_errors, "tick-raised", f"Engine.tick raised {rig.tick_errors[:1]}")
             since += 1
@@ -84,7 +87,7 @@ OBLIGATIONS = [Obligation(
              "openpectus.engine.engine_message_builder:EngineMessageBuilder.collect_tag_updates", "openpectus.lang.exec.tags_impl:BlockTimeTag.on_tick",
              "openpectus.lang.exec.tags_impl:ScopeTimeTag.on_tick", "openpectus.lang.exec.tags:Tag.set_value", "openpectus.lang.exec.tags:Tag.stop_simulation"],
     symbolic="number of ticks before each report (1..3, one solver variable per report)",
-    bounds={"quick": "2 templates (block + simulation + wait; output command + watch + run counter + base) x {no pause, pause at tick 6}, 18 ticks",
+    bounds={"quick": "3 templates (block + simulation + wait; output command + watch + run counter + base; repeated simulate / simulate off of one tag with equal and different values while the real value changes) x {no pause, pause at tick 6}, 18 ticks",
             "thorough": "same templates, pause at ticks 3/6/9/12 or none"},
     assumptions=["tick interval fixed at 0.1 s (values concrete; pydantic models are built by the real to_model_tag)",
                  "fake hardware; log statements removed at import"],
